@@ -76,6 +76,12 @@ package main
 //               callee without results (or returning its receiver) is a statement that rebinds the
 //               receiver fields it assigns.  A method returning its own receiver type returns the fields
 //               it assigns.
+//   object literals  `&T{field: f, val: X}` for an object struct with a `val uint` field (not a tuple struct) is the
+//               value word X: as a returned `*T` it is X, as a returned ff.Element it is `some X`;
+//               `a := &T{…}` makes a a local object (method statements as for `x := a.Copy()`).  A method
+//               whose every `return` returns its receiver as an ff.Element returns the fields it assigns.
+//               `make([]T, 0, c)` is the empty list (capacity invisible).  Suffix cores do not call
+//               translated methods of the own receiver (they keep them as parameters, as before).
 //   if A && B   with B possibly panicking: `if A { if B {S} else {T} } else {T}` (short-circuit evaluation)
 //   division    `/` and `%` are Lean's total operations (x / 0 = 0): a Go division by zero (panic) is NOT
 //               modelled, also not in partial functions
@@ -138,6 +144,7 @@ type tr struct {
 	canContinue bool        // `continue` of the loop being translated is allowed
 	contPost    []ast.Stmt  // its post statement
 	loopLabel   string      // label of the `for` statement about to be translated
+	noOwn       bool        // suffix cores keep methods of the own receiver as parameters (older translations)
 }
 
 func (t *tr) fail(format string, a ...interface{}) string {
@@ -1001,7 +1008,7 @@ func (t *tr) stmts(list []ast.Stmt, k []ast.Stmt) string {
 			return t.wrapGuards(t.takeGuards(), tc)
 		}
 		var vals []string
-		for _, r := range v.Results {
+		for i, r := range v.Results {
 			// returning the receiver: its (possibly assigned) word state
 			if id, ok := r.(*ast.Ident); ok && id.Name == t.recvName {
 				var as []string
@@ -1011,6 +1018,27 @@ func (t *tr) stmts(list []ast.Stmt, k []ast.Stmt) string {
 				sort.Strings(as)
 				if len(as) > 0 {
 					vals = append(vals, t.retTuple(as))
+					continue
+				}
+			}
+			if len(v.Results) == len(t.resTypes) && !t.isLoopBody {
+				// an object (literal with a `val` field, local object, result of a translated method
+				// returning a pointer) is its value word; as an ff.Element it is a non-nil element
+				obj, isObj := "", false
+				if x, ok := t.objectLit(r); ok {
+					obj, isObj = t.argExpr(x), true
+				} else if id, ok := r.(*ast.Ident); ok && t.localObj[id.Name] {
+					obj, isObj = id.Name, true
+				} else if c, ok := r.(*ast.CallExpr); ok {
+					if mi, own := t.ownMethod(c); own && strings.HasPrefix(mi.retGo, "*") && !mi.partial {
+						obj, isObj = t.ownCall(mi, c), true
+					}
+				}
+				if isObj {
+					if t.resTypes[i] == elemGo {
+						obj = "(some " + obj + ")"
+					}
+					vals = append(vals, obj)
 					continue
 				}
 			}
@@ -1096,6 +1124,17 @@ func (t *tr) stmts(list []ast.Stmt, k []ast.Stmt) string {
 				t.assigned[m] = true
 			} else {
 				return t.fail("assignment target %s", src(v.Lhs[i]))
+			}
+			if x, ok := t.objectLit(v.Rhs[i]); ok && v.Tok == token.DEFINE && len(v.Lhs) == 1 {
+				// `a := &T{…, val: X}`: a local object, represented by its value word
+				if id, ok := v.Lhs[0].(*ast.Ident); ok {
+					val := t.expr(x)
+					t.localObj[id.Name] = true
+					t.types[id.Name] = "uint"
+					t.params[id.Name] = true
+					g := t.takeGuards()
+					return t.wrapGuards(g, "let "+id.Name+" : Nat := "+val+"; "+t.stmts(rest, k))
+				}
 			}
 			if _, isIdx := v.Rhs[i].(*ast.IndexExpr); isIdx && isSliceTy(t.typeOf(v.Rhs[i])) {
 				return t.fail("a row of a slice of slices is copied (aliasing)")
@@ -2037,7 +2076,9 @@ func translateFnMode(f *fn, known map[string]string, retTypes map[string]string,
 		return true
 	})
 	returnsRecv := t.recvName != "" && f.decl.Type.Results != nil && len(f.decl.Type.Results.List) == 1 &&
-		len(f.decl.Type.Results.List[0].Names) == 0 && src(f.decl.Type.Results.List[0].Type) == "*"+recvType(f.decl) && len(t.assigned) > 0
+		len(f.decl.Type.Results.List[0].Names) == 0 && len(t.assigned) > 0 &&
+		(src(f.decl.Type.Results.List[0].Type) == "*"+recvType(f.decl) ||
+			(src(f.decl.Type.Results.List[0].Type) == elemGo && returnsOnlyRecv(f.decl, t.recvName)))
 	if returnsRecv {
 		// a method returning its receiver: the final values of the receiver fields it assigns
 		var rts []string
@@ -2215,6 +2256,10 @@ var translateList = []string{
 	"univariate.Polynomial.SetCoefPtr", "univariate.Polynomial.IncrementCoef", "univariate.Polynomial.DecrementCoef",
 	"univariate.Polynomial.removeCoef",
 	"univariate.Polynomial.Degrees", "univariate.Polynomial.NTerms", "univariate.Polynomial.IsMonomial",
+	"binfield.Field.ElementFromBits", "binfield.Field.ElementFromUnsigned", "binfield.Field.ElementFromSigned",
+	"binfield.Element.NTerms", "binfield.Element.SetUnsigned",
+	"primefield.Field.element", "primefield.Field.ElementFromUnsigned", "primefield.Element.SetUnsigned",
+	"primefield.Element.Uint", "primefield.Element.NTerms",
 }
 
 func writeCode(funcs map[string]*fn, path string) {
@@ -2301,6 +2346,7 @@ func translateSuffix(f *fn, spec suffixSpec, known map[string]string, retTypes m
 func translateSuffixMode(f *fn, spec suffixSpec, known map[string]string, retTypes map[string]string, partial bool) (string, bool) {
 	t := newTr(f, known, retTypes)
 	t.partial = partial
+	t.noOwn = true
 	if partial {
 		// result type of a suffix that may panic (objects are value words)
 		var rts []string
